@@ -20,6 +20,8 @@ LAYOUT_A = [{"n": 1, "kf": 0}] * 6
 def from_history(i, h, kind):
     r = random.Random(i)
     frames = [dict(f, size=r.choice([40, 300, 1200, 2500])) for f in (LAYOUT_V if kind == "video" else LAYOUT_A)]
+    if kind == "video" and i % 3 == 1:
+        frames[2]["dim"] = 1          # the second keyframe comes with other dimensions: the recorder starts a new file there
     tr = {"kind": kind, "codec": "vp8" if kind == "video" else "opus", "seq0": r.choice([1, 1000, 65533, 65535, 65531]), "ts0": r.choice([0, 5000, 2 ** 32 - 4000]), "frames": frames}
     ops = [{"op": o["op"], "t": 0, "p": o["p"] - 1} for o in h["ops"]]
     ops.append({"op": "close", "t": 0, "a": "leave" if i % 2 else "stop"})
@@ -71,7 +73,7 @@ def seeded(seed, n):
                 for f in range(nfr):
                     k = 1 if (f % r.choice([7, 15, 40]) == 0 and (f > 0 or r.random() < 0.8)) else 0
                     nn = r.choice([1, 1, 2, 3, 5])
-                    frames.append({"n": nn, "kf": k, "size": r.choice([60, 400, 1500, 4000])})
+                    frames.append({"n": nn, "kf": k, "size": r.choice([60, 400, 1500, 4000]), "dim": 1 if (k and r.random() < 0.3) else 0})
                 tracks.append({"kind": "video", "codec": "vp8", "seq0": r.choice([0, 7, 65000, 65500]), "ts0": r.choice([0, 90000, 2 ** 32 - 90000 * 3, 2 ** 31 - 45000]), "frames": frames})
             else:
                 frames = [{"n": 1, "kf": 0, "size": r.choice([20, 80, 160])} for f in range(int(nfr * 5 / 3) + 1)]
@@ -98,6 +100,32 @@ def seeded(seed, n):
     return behs
 
 
+def corpus():
+    """audio + video with sender reports where the file cannot open at the first keyframe (one of its packets is lost for good, or
+    is only cached and never noticed): the shared origin has to be moved to a later keyframe for BOTH tracks, each in its own clock"""
+    out = []
+    # (the sample builder gives a missing packet inside its oldest frame up only when its ring of 2 x 256 packets is full:
+    #  the next keyframe has to come after that)
+    for (name, first_op, kf2) in (("lost", "X", 560), ("lost-later-keyframe", "X", 700)):
+        vframes = [{"n": 2 if f == 0 else 1, "kf": 1 if f in (0, kf2) else 0, "size": 300} for f in range(kf2 + 20)]
+        aframes = [{"n": 1, "kf": 0, "size": 60} for f in range(int((kf2 + 20) * 5 / 3))]
+        tracks = [{"kind": "audio", "codec": "opus", "seq0": 100, "ts0": 48000, "frames": aframes},
+                  {"kind": "video", "codec": "vp8", "seq0": 65530, "ts0": 2 ** 32 - 90000, "frames": vframes}]
+        ops = [{"op": "SR", "t": 0, "p": 0}, {"op": "SR", "t": 1, "p": 0}]
+        ai, vi, nv = 0, 0, len(vframes) + 1
+        while ai < len(aframes) or vi < nv:
+            # 5 audio frames for 3 video frames, in capture order
+            if ai < len(aframes) and (vi >= nv or ai * 3 <= vi * 5):
+                ops.append({"op": "D", "t": 0, "p": ai})
+                ai += 1
+            else:
+                ops.append({"op": first_op if vi == 1 else "D", "t": 1, "p": vi})
+                vi += 1
+        ops.append({"op": "close", "t": 0, "a": "leave"})
+        out.append({"name": "av-origin-moves-" + name, "tracks": tracks, "ops": ops, "x": {"sync": 1, "tol": 3}})
+    return out
+
+
 def run(tier, replay=None):
     rep = C.Report(PID)
     w = C.scratch("c20-")
@@ -119,7 +147,7 @@ def run(tier, replay=None):
                     raise C.Inconclusive("only %d histories enumerated by %s" % (len(hs), cfg))
                 rep.cov["histories_enumerated_" + kind] = len(hs)
                 behs += [from_history(i, h, kind) for i, h in enumerate(hs)]
-            behs += seeded(sd, 400 if thorough else 60)
+            behs += seeded(sd, 400 if thorough else 60) + corpus()
             cdir = os.path.join(C.VERIF, "corpus", PID)
             if os.path.isdir(cdir):
                 for f in sorted(os.listdir(cdir)):
